@@ -83,8 +83,8 @@ def sig_event(ev, sform="pinned"):
     if th.startswith("W"):
         if e in ("lock", "unlock") and a == "tc":
             return [th, e]
-        if e == "signal" and a == "tc":
-            return [th, "signal"]
+        if e in ("signal", "broadcast") and a == "tc":
+            return [th, "signal"]       # the dispatcher is the only waiter on threadcount_cond: the two are the same
         if e == "connectEnd":
             try:
                 return [th, "connectEnd", "1" if int(ev[3]) >= 0 else "0"]
